@@ -17,10 +17,15 @@
    Numbers are generic in [N : Num]; the float -> integer casts of the custom codecs (`as i64`, `as u64`) need a
    truncation N -> Z, which is a parameter [trunc] instantiated below for Q and for binary64.
 
+   The integer -> float casts of the custom codecs (`*value as f64`, round to nearest even) are the parameter
+   [of_int]: for Q it is [inject_Z (round53 z)] (the integer rounded to 53 significant bits, computed on Z), for
+   binary64 it is [Z2F] (the same value as a float), so the top of the i64 / u64 range is modelled as coded:
+   u64::MAX as f64 = 2^64, 2^64 as u64 = u64::MAX (saturating cast), i64::MAX as f64 = 2^63, NaN as i64 = 0.
+
    Not modelled: the text of error messages; serde parsing of a feature from JSON (a feature arrives parsed;
-   a `state_features` value that does not parse is the constructor [UBad]); u64 values >= 2^63 (the binary64
-   instance converts integers through a 63-bit primitive). *)
-From Coq Require Import ZArith QArith List String Bool Floats.
+   a `state_features` value that does not parse is the constructor [UBad]) - the correspondence run sends every
+   configured feature and every query override through the real deserialisation. *)
+From Coq Require Import ZArith QArith List String Bool Floats Uint63.
 From RC Require Import Base.Num Base.Res Model.Units Model.CompactMap.
 Import ListNotations.
 
@@ -132,6 +137,7 @@ Definition clamp (lo hi z : Z) : Z := if Z.ltb z lo then lo else if Z.ltb hi z t
 Section Ops.
   Variable N : Num.
   Variable trunc : N -> Z.       (* truncation toward zero; NaN |-> 0 *)
+  Variable of_int : Z -> N.      (* `as f64` on an integer: nearest binary64, ties to even *)
   Notation sm_t := (smodel N).
   Notation state := (list N).
 
@@ -139,9 +145,9 @@ Section Ops.
   Definition encode_f64 (f : fmt N) (v : N) : res N :=
     match f with FFloat _ => Ok v | _ => Err err_encode end.
   Definition encode_i64 (f : fmt N) (z : Z) : res N :=
-    match f with FSigned _ => Ok (of_Z z) | _ => Err err_encode end.          (* *value as f64 *)
+    match f with FSigned _ => Ok (of_int z) | _ => Err err_encode end.        (* *value as f64 *)
   Definition encode_u64 (f : fmt N) (z : Z) : res N :=
-    match f with FUnsigned _ => Ok (of_Z z) | _ => Err err_encode end.
+    match f with FUnsigned _ => Ok (of_int z) | _ => Err err_encode end.
   Definition encode_bool (f : fmt N) (b : bool) : res N :=
     match f with FBool _ => Ok (if b then one else zero) | _ => Err err_encode end.
   Definition fmt_initial (f : fmt N) : res N :=
@@ -344,6 +350,31 @@ Definition trunc_F (f : float) : Z :=
                | Zneg p => Z.shiftr (Zpos m) (Zpos p)
                end in
       if s then (- a)%Z else a
+  end.
+
+(* ---- `as f64` on an integer ---- *)
+(* z rounded to 53 significant bits, ties to even: the integer value of `z as f64` *)
+Definition round53 (z : Z) : Z :=
+  let a := Z.abs z in
+  if Z.ltb a (2 ^ 53) then z
+  else
+    let sh := (Z.log2 a - 52)%Z in
+    let q := Z.shiftr a sh in
+    let r := (a mod 2 ^ sh)%Z in
+    let half := (2 ^ (sh - 1))%Z in
+    let q' := if Z.ltb half r || (Z.eqb r half && Z.odd q) then (q + 1)%Z else q in
+    (Z.sgn z * (q' * 2 ^ sh))%Z.
+Definition of_int_Q (z : Z) : Q := inject_Z (round53 z).
+(* binary64: the 63-bit primitive conversion rounds to nearest even; a 64-bit magnitude is halved with a sticky
+   bit first (round to odd), which leaves the rounding of the 53-bit result unchanged, and doubled exactly *)
+Definition Z2F_pos (a : Z) : float :=
+  if Z.ltb a (2 ^ 63) then PrimFloat.of_uint63 (Uint63.of_Z a)
+  else PrimFloat.mul (PrimFloat.of_uint63 (Uint63.of_Z (Z.lor (Z.shiftr a 1) (Z.land a 1)))) (PrimFloat.of_uint63 2%uint63).
+Definition Z2F (z : Z) : float :=
+  match z with
+  | Z0 => PrimFloat.zero
+  | Zpos _ => Z2F_pos z
+  | Zneg p => PrimFloat.opp (Z2F_pos (Zpos p))
   end.
 
 End SM.
